@@ -43,8 +43,17 @@ type c13Case struct {
 	Ops  []c13Op `json:"ops"`
 	Raw  string  `json:"raw,omitempty"`  // a fixed program instead of Ops (F25 witness; binary stream)
 	Want string  `json:"want,omitempty"` // its expected stdout
+	Prev []c13Prev `json:"prev,omitempty"` // earlier Execute calls of the SAME program on the same Interpreter
+	Init map[string]string `json:"-"`      // the files as they are when the run under test starts (set by c13Run)
 	Bin  string  `json:"bin,omitempty"`  // binary stream: what the goawk PROCESS gets as fd 1: ok | rofile | devfull | closedpipe
 	Exit int     `json:"exit,omitempty"` // binary stream: the status the program asks for
+}
+
+// c13Prev: an earlier run on the same Interpreter: its file names carry the suffix Sfx ("" = the same names as the run under
+// test); it stops before operation |Stop|-1 with exit 2 (Stop > 0) or a run-time error (Stop < 0), or runs to the end (0)
+type c13Prev struct {
+	Sfx  string `json:"sfx"`
+	Stop int    `json:"stop"`
 }
 
 const c13Old3 = "old3\n"
@@ -84,10 +93,16 @@ func c13Render(cs *c13Case, d string) string {
 	for i, op := range cs.Ops {
 		name := func() string {
 			r := c13Real(d, op.N)
+			if op.N == "f1" || op.N == "f2" || op.N == "f3" {
+				return "(D " + q("/"+op.N) + " SFX)" // SFX is empty in the run under test
+			}
 			if strings.HasPrefix(r, d) && i%2 == 0 {
 				return "(D " + q(r[len(d):]) + ")"
 			}
 			return q(r)
+		}
+		if len(cs.Prev) > 0 {
+			fmt.Fprintf(&b, "  if (STOP == %d) exit 2; if (STOP == -%d) x = 1 / zero\n", i+1, i+1)
 		}
 		stmt := func(redir string) string {
 			if strings.HasSuffix(op.C, "\n") && i%3 != 0 {
@@ -369,7 +384,7 @@ func c13Run(cs *c13Case) (obs c13Obs) {
 	sink := &c13Sink{limit: cs.Fail, failedAt: -1, seq: &seq, seqMu: &mu}
 	var errw c13Sink
 	errw.limit, errw.failedAt, errw.seq, errw.seqMu = -1, -1, &seq, &mu
-	cfg := &interp.Config{Stdin: strings.NewReader(""), Error: &errw, Environ: []string{}, Vars: []string{"D", d}, Funcs: funcs}
+	cfg := &interp.Config{Stdin: strings.NewReader(""), Error: &errw, Environ: []string{}, Vars: []string{"D", d, "SFX", "", "STOP", "0"}, Funcs: funcs}
 	var bw *bufio.Writer
 	var rec *c13Rec
 	var bb *bytes.Buffer
@@ -392,7 +407,35 @@ func c13Run(cs *c13Case) (obs c13Obs) {
 				obs.Panic = fmt.Sprint(r)
 			}
 		}()
-		st, err := interp.ExecProgram(prog, cfg)
+		p, err := interp.New(prog)
+		if err != nil {
+			obs.Err = "interp.New: " + err.Error()
+			return
+		}
+		for _, pv := range cs.Prev {
+			var po, pe c13Sink
+			po.limit, po.failedAt, po.seq, po.seqMu = -1, -1, &seq, &mu
+			pe.limit, pe.failedAt, pe.seq, pe.seqMu = -1, -1, &seq, &mu
+			p.Execute(&interp.Config{Stdin: strings.NewReader(""), Output: &po, Error: &pe, Environ: []string{},
+				Vars: []string{"D", d, "SFX", pv.Sfx, "STOP", fmt.Sprint(pv.Stop)}, Funcs: funcs})
+			ents, _ := os.ReadDir(d)
+			for _, e := range ents {
+				if strings.HasSuffix(e.Name(), ".out") {
+					os.Remove(d + "/" + e.Name()) // the commands' own logs are per run
+				}
+			}
+		}
+		// the files the run under test starts with
+		cs.Init = map[string]string{}
+		ents, _ := os.ReadDir(d)
+		for _, e := range ents {
+			b, _ := os.ReadFile(d + "/" + e.Name())
+			cs.Init[e.Name()] = string(b)
+		}
+		mu.Lock()
+		obs.Events = nil
+		mu.Unlock()
+		st, err := p.Execute(cfg)
 		obs.Status = st
 		if err != nil {
 			obs.Err = err.Error()
@@ -449,6 +492,12 @@ func c13Line(s string) (string, string) {
 
 func c13EvalSpec(cs *c13Case) c13Spec {
 	sp := c13Spec{Files: map[string]string{"f3": c13Old3}, CmdOut: map[string]string{}, Outcome: "ok0"}
+	if cs.Init != nil {
+		sp.Files = map[string]string{}
+		for n, c := range cs.Init {
+			sp.Files[n] = c
+		}
+	}
 	open := map[string]*c13SpecStream{}
 	var order []string
 	echoAlive := func() int {
@@ -732,7 +781,20 @@ func c13LeanReq(cs *c13Case) string {
 	if cs.Fail >= 0 {
 		fail = fmt.Sprint(cs.Fail)
 	}
-	fmt.Fprintf(&b, "run %s %s %s=%s", buffered, fail, vh.HxS("f3"), vh.HxS(c13Old3))
+	init := cs.Init
+	if init == nil {
+		init = map[string]string{"f3": c13Old3}
+	}
+	var pairs []string
+	for n, c := range init {
+		pairs = append(pairs, vh.HxS(n)+"="+vh.HxS(c))
+	}
+	sort.Strings(pairs)
+	fsArg := "."
+	if len(pairs) > 0 {
+		fsArg = strings.Join(pairs, ",")
+	}
+	fmt.Fprintf(&b, "run %s %s %s", buffered, fail, fsArg)
 	for _, op := range cs.Ops {
 		switch op.K {
 		case "p":
@@ -890,6 +952,24 @@ func c13Corpus() []c13Case {
 			res = append(res, c13Case{Out: out, Fail: -1, Ops: ops})
 		}
 	}
+	// a reused Interpreter: the same program run before on the same Interpreter (same or other file names; stopped early by exit or
+	// by a run-time error, or run to the end); the run under test is judged on its own: `>` truncates at its first open IN THIS RUN
+	reuse := [][]c13Op{
+		h(P("a\n"), W("gt", "f1", "x\n"), W("gt", "f1", "y\n")),                                  // stream left open at the end of every run
+		h(W("gt", "f1", "x\n"), X("close", "f1"), W("app", "f1", "y\n"), W("gt", "f2", "z\n")),
+		h(W("app", "f3", "n\n"), W("pipe", "sink0a", "s\n"), P("b\n")),
+		h(W("pipe", "sink3b", "s\n"), X("close", "sink3b"), W("pipe", "sink3b", "t\n")),
+		h(W("gt", "f1", "x\n"), W("gt", "f2", "y\n"), c13Op{K: "exit", V: 1}),
+		h(W("gt", "f2", "y\n"), W("gt", "f1", "x\n"), c13Op{K: "fail"}),
+		h(W("gt", "f1", "x\n"), X("gf", "f2"), W("gt", "/dev/stdout", "o\n")),
+	}
+	for _, ops := range reuse {
+		for _, prev := range [][]c13Prev{{{"", 0}}, {{"x", 0}}, {{"", 2}}, {{"", -2}}, {{"", 0}, {"x", 3}}, {{"x", 0}, {"", 0}}} {
+			for _, out := range []string{"plain", "bufio"} {
+				res = append(res, c13Case{Out: out, Fail: -1, Ops: ops, Prev: prev})
+			}
+		}
+	}
 	// F17-api witness: the only failing write is the final flush of a buffered Config.Output
 	res = append(res, c13Case{Out: "bufio", Fail: 0, Ops: h(P("x\n"))})
 	res = append(res, c13Case{Out: "rec", Fail: 1, Ops: h(P("x\n"))})
@@ -977,7 +1057,17 @@ func c13Random(c *vh.Ctx, faultFree bool) c13Case {
 		}
 		ops = append(ops, op)
 	}
-	return c13Case{Out: []string{"plain", "bufio", "rec"}[r.Intn(3)], Fail: -1, Ops: ops}
+	cs := c13Case{Out: []string{"plain", "bufio", "rec"}[r.Intn(3)], Fail: -1, Ops: ops}
+	if faultFree && r.Intn(3) == 0 {
+		for k, m := 0, 1+r.Intn(2); k < m; k++ {
+			pv := c13Prev{Sfx: []string{"", "", "x"}[r.Intn(3)]}
+			if r.Intn(2) == 0 {
+				pv.Stop = r.Intn(2*n+1) - n
+			}
+			cs.Prev = append(cs.Prev, pv)
+		}
+	}
+	return cs
 }
 
 func main() { vh.Main("C13", runC13) }
@@ -1145,6 +1235,7 @@ func runC13(c *vh.Ctx) {
 		c.Eval(string(key), len(dests) >= 2 || reopen || cs.Raw != "")
 		c.OracleCase()
 		c.Hit("output:" + cs.Out)
+		c.Hit(fmt.Sprintf("earlier-executes-on-same-interpreter:%d", len(cs.Prev)))
 		if cs.Bin != "" {
 			c.Hit("binary-stdout:" + cs.Bin)
 		}
